@@ -13,6 +13,7 @@ import (
 	"time"
 
 	"github.com/rcrowley/go-metrics"
+	"github.com/slackhq/nebula/cert"
 	"github.com/slackhq/nebula/firewall"
 	"github.com/slackhq/nebula/iputil"
 )
@@ -35,6 +36,12 @@ func forall[T any](f func(T) bool) bool { return true }
 func exists[T any](f func(T) bool) bool { return true }
 func elems[T any](s []T, r ...int) bool { return true }
 func fresh[T any](p *T) bool            { return true }
+func clock() time.Time                  { return time.Now() }
+func mapof[K comparable, V any](m map[K]V) bool { return true }
+func has[K comparable, V any](m map[K]V, k K) bool {
+	_, ok := m[k]
+	return ok
+}
 func ite[T any](c bool, a, b T) T {
 	if c {
 		return a
@@ -431,6 +438,121 @@ func specAddrHi(a netip.Addr) uint64 {
 func specAddrLo(a netip.Addr) uint64 {
 	b := a.As16()
 	return uint64(b[8])<<56 | uint64(b[9])<<48 | uint64(b[10])<<40 | uint64(b[11])<<32 | uint64(b[12])<<24 | uint64(b[13])<<16 | uint64(b[14])<<8 | uint64(b[15])
+}
+
+// =====================================================================
+// C18 / C19 — tracked flows: per tuple, expiring, revalidated after reload
+// =====================================================================
+//
+// clock() is the ghost wall clock: the latest instant time.Now() returned
+// (instants never decrease). specRuleAllows stands for "the rule table allows
+// this packet in this direction for this certificate" (the rule semantics
+// themselves are C16); it is opaque here.
+
+//@ func specRuleAllows
+//@   opaque
+func specRuleAllows(ft *FirewallTable, p firewall.Packet, incoming bool, c *cert.CachedCertificate, pool *cert.CAPool) bool {
+	return true
+}
+
+//@ func specFlowTimeout
+//@   pure
+func specFlowTimeout(f *Firewall, proto uint8) time.Duration {
+	switch proto {
+	case firewall.ProtoTCP:
+		return f.TCPTimeout
+	case firewall.ProtoUDP:
+		return f.UDPTimeout
+	}
+	return f.DefaultTimeout
+}
+
+//@ func specFirewallOK
+//@   pure
+func specFirewallOK(f *Firewall) bool {
+	return f.Conntrack != nil && f.Conntrack.Conns != nil && f.Conntrack.TimerWheel != nil && f.InRules != nil && f.OutRules != nil && f.l != nil &&
+		0 <= f.TCPTimeout && f.TCPTimeout <= 1<<50 && 0 <= f.UDPTimeout && f.UDPTimeout <= 1<<50 && 0 <= f.DefaultTimeout && f.DefaultTimeout <= 1<<50
+}
+
+// Assumed frame of the timer wheel operations used by the conntrack code: they
+// touch only the wheel's own lists, items and cache (timeout.go), never the
+// conntrack map, its entries or the firewall.
+//@ func (*TimerWheel).Purge
+//@   trusted frame abstraction: modifies only the wheel's own lists/items/cache (timeout.go)
+//@   assigns nothing
+//@ func (*TimerWheel).Advance
+//@   trusted frame abstraction: modifies only the wheel's own lists/items/cache (timeout.go)
+//@   assigns nothing
+//@ func (*TimerWheel).Add
+//@   trusted frame abstraction: modifies only the wheel's own lists/items/cache (timeout.go)
+//@   assigns nothing
+//@ func (*HostInfo).logger
+//@   trusted builds a logger value; no effect on firewall state
+//@   ensures result != nil
+//@   assigns nothing
+//@ func (*FirewallTable).match
+//@   trusted rule evaluation (C16) is abstracted to specRuleAllows here; it only reads
+//@   ensures result == specRuleAllows(ft, p, incoming, c, caPool)
+//@   assigns nothing
+
+// evict only ever removes the entry of the flow it is given: every other
+// key, and that key if it stays, keeps its entry.
+//@ func (*Firewall).evict
+//@   props C18
+//@   ghost kq firewall.Packet
+//@   requires f != nil && specFirewallOK(f)
+//@   requires[noNilEntries] forall(func(k firewall.Packet) bool { return implies(has(f.Conntrack.Conns, k), f.Conntrack.Conns[k] != nil) })
+//@   ensures[removed] implies(old(has(f.Conntrack.Conns, p)) && !has(f.Conntrack.Conns, p), !old(f.Conntrack.Conns[p].Expires).After(clock()))
+//@   ensures[only]   implies(kq != p, has(f.Conntrack.Conns, kq) == old(has(f.Conntrack.Conns, kq)))
+//@   ensures[keeps]   implies(has(f.Conntrack.Conns, kq), old(has(f.Conntrack.Conns, kq)) && f.Conntrack.Conns[kq] == old(f.Conntrack.Conns[kq]))
+//@   ensures[expired] implies(old(f.Conntrack.Conns[p]) != nil && f.Conntrack.Conns[p] != nil, !old(f.Conntrack.Conns[p].Expires).Before(old(clock())))
+//@   assigns mapof(f.Conntrack.Conns)
+
+//@ func (*Firewall).inConns
+//@   props C18 C19
+//@   requires f != nil && h != nil && h.ConnectionState != nil && specFirewallOK(f)
+//@   requires[noNilEntries] forall(func(k firewall.Packet) bool { return implies(has(f.Conntrack.Conns, k), f.Conntrack.Conns[k] != nil) })
+//@   old c0 = f.Conntrack.Conns[fp]
+//@   old cached = localCache != nil && has(localCache, fp)
+//@   old exp0 = specExpires(f.Conntrack.Conns[fp])
+//@   old ver0 = specVersion(f.Conntrack.Conns[fp])
+//@   old in0 = specIncoming(f.Conntrack.Conns[fp])
+//@   callghost evict kq = fp
+//@   ensures[tracked]    implies(result && !cached, c0 != nil && f.Conntrack.Conns[fp] == c0)
+//@   ensures[fresh]      implies(result && !cached, !exp0.Before(old(clock())))
+//@   ensures[rearm]      implies(result && !cached, c0.Expires.Sub(clock()) <= specFlowTimeout(f, fp.Protocol) && c0.Expires.Sub(old(clock())) >= specFlowTimeout(f, fp.Protocol))
+//@   ensures[revalidate] implies(result && !cached && ver0 != f.rulesVersion, specRuleAllows(ite(in0, f.InRules, f.OutRules), fp, in0, h.ConnectionState.peerCert, caPool))
+//@   ensures[reversion]  implies(result && !cached, c0.rulesVersion == f.rulesVersion)
+//@   ensures[forget]     implies(!cached && c0 != nil && f.Conntrack.Conns[fp] == c0 && ver0 != f.rulesVersion && !specRuleAllows(ite(in0, f.InRules, f.OutRules), fp, in0, h.ConnectionState.peerCert, caPool), !result)
+//@   ensures[sameRules]  implies(!cached && c0 != nil && ver0 == f.rulesVersion && exp0.After(clock()), result)
+//@   ensures[miss]       implies(!cached && c0 == nil, !result)
+
+//@ func specExpires
+//@   pure
+func specExpires(c *conn) time.Time {
+	if c == nil {
+		var zero time.Time
+		return zero
+	}
+	return c.Expires
+}
+
+//@ func specVersion
+//@   pure
+func specVersion(c *conn) uint16 {
+	if c == nil {
+		return 0
+	}
+	return c.rulesVersion
+}
+
+//@ func specIncoming
+//@   pure
+func specIncoming(c *conn) bool {
+	if c == nil {
+		return false
+	}
+	return c.incoming
 }
 
 // =====================================================================
